@@ -100,7 +100,7 @@ func MaintCustom() hnsw.AutoMaintenanceConfig {
 	c.DeleteThreshold = 0.25
 	c.RefineEnabled = true
 	c.RefineBatchSize = 7
-	c.GraphRetention = hnsw.Duration(3 * time.Hour)
+	c.GraphRetention = hnsw.Duration(2 * time.Second)
 	return c
 }
 
@@ -200,6 +200,12 @@ func (w *World) apply(pos int, o Op) error {
 	case VUnlink:
 		return e.VUnlink(o.I, o.ID, o.ID2, o.S, o.S2, o.B)
 	case GraphVacuum:
+		if o.N == 0 {
+			// engine-level vacuum: cutoff = now - retention of the index configuration
+			e.RunGraphVacuum()
+			return nil
+		}
+		// core-level vacuum with an explicit cutoff (not journaled by design of the API)
 		e.DB.VacuumGraph(time.Now().UnixNano() - o.N)
 		return nil
 	case VUpdConfig:
